@@ -344,4 +344,18 @@ def obligations(tier, sc):
                          what="4 synthetic declarations covering u8 i8 u16 i16 u32 i32 u64 i64 str, %%, custom printf formats"))
     obs.append(evspec_ob("E_evspec_synth_smallbuf", "kernel", [3], [synth[3]], ["SYNTH", "SMALLBUF=24", "NUMLEN_MAX=6"],
                          what="synthetic declaration XAd(u16 x) 'only %5u{x} and %#x{x}.' (text ends with a literal: exact fill is reachable) into every buffer length 0..24"))
+    # ---- ovnisort on VALID streams with a small, wrapping look-back ring: memory safety of the whole stream_winsort
+    # (ring_add wrap-around, find_destination's backwards search).  These are C16's layout obligations (real
+    # ovnisort.c, every clock and the ring size symbolic) re-run under this property: a seeded change started the
+    # backwards search at ring index tail-1 without wrapping (reads ev[-1] when the ring has just wrapped), which
+    # the arbitrary-byte sort-plan obligations above never reach with their fixed ring fill.
+    from checks import C16 as _c16
+    n = 0
+    for ob in _c16.obligations(tier, sc):
+        if ob.info_only:
+            continue
+        if ob.name in ("sort_xoxxc", "sort_xxoxc", "sort_oxxc", "sort_xxxoxc", "sort_oxcoxc") or (tier == "thorough" and n < 24):
+            ob.name = "winsort_valid_stream_" + ob.name
+            obs.append(ob)
+            n += 1
     return obs
